@@ -54,6 +54,15 @@ CLAIMED = {
                      "transport close and one inactive) in every quiescent state after Shutdown, and that everything comes to rest (liveness), for programs of Listen/Async, "
                      "Connect and Listener.Close with Shutdown at every point; schedules are replayed on the real bootstrap with a gated mock factory/acceptor/executor, "
                      "recorded executions are validated by TLC; the unrepaired specification must still yield the leaked-acceptor counterexample, which is replayed each run."),
+    "C04": dict(engine="frame", design="3/C04", technique="TLA+ transcription of the frame decoders/encoders (Frame.tla) checked exhaustively by TLC + trace validation of the real codecs under fragmentation",
+                text="Frame.tla transcribes the decoders (header parse, validation ladder, lazy exact-length body, delimiter scan) and the encoders' header arithmetic including "
+                     "field capacity; TLC checks round trip, exact consumption and encoder honesty over 22 configurations x payload-length sequences x end-of-stream positions; "
+                     "the real codecs run the same cases under 1-byte/random/boundary fragmentation, both byte orders and four carrier types, every decoder invocation is "
+                     "validated against the spec by TLC and an independent byte-level oracle compares delivered payloads and consumed bytes."),
+    "C08": dict(engine="frame", design="3/C08", technique="TLA+ transcription of the frame decoders with end-of-stream positions and adversarial headers (TLC) + trace validation, EOF-loop scenario and adversarial streams on the real decoders",
+                text="TLC checks delivered-complete, within-max, no-phantom, bounded buffering and progress for every cut position (before/inside/after header, inside body) and "
+                     "adversarial header values; the real decoders are validated invocation by invocation, run through a real channel whose peer closed (must become inactive, "
+                     "not deliver endless messages) and fed random adversarial streams (no runtime fault, progress, maximum respected)."),
 }
 NA = {}
 for p in props:
@@ -83,6 +92,7 @@ engines = {}
 for pid, c in CLAIMED.items():
     engines.setdefault(c["engine"], []).append(pid)
 ENG = {
+    "frame": ("spec/Frame.tla + spec/TraceFrame.tla + harness/cmd/driver/frame.go", "TLA+ transcription of the frame codecs; TLC exhaustive checking over configurations/lengths/cut points; trace validation of the real codecs"),
     "bootstrap": ("spec/Bootstrap.tla + spec/TraceBootstrap.tla + harness/cmd/driver/boot.go", "TLA+ spec of the bootstrap; TLC exhaustive checking; replay + trace validation through the gate scheduler"),
     "pipeline": ("spec/Pipeline.tla + spec/TracePipeline.tla + harness/cmd/driver/pipe.go", "TLA+ reference model of the handler pipeline; TLC trace validation of programs run on the real pipeline"),
     "pipeline+channel": ("spec/Pipeline.tla + spec/Channel.tla + harness/cmd/driver/{pipe,chan}.go", "recover scopes as reference model + transport fault actions"),
